@@ -63,11 +63,45 @@ def hashwin(L: int) -> np.ndarray:
     return 0.5 + ((np.arange(L) * 7 + 3 * L) % 11) / 11
 
 
+def custom_sched(seed: int):
+    """a user scheduler (the analyzer accepts callables): a valid plan whose segment lengths repeat, are NOT monotone, contain
+    neighbours L, L+1, L, L-1 and patterns A, B, A — so a window / basis cached under a wrong key, or taken from another bin, shows;
+    starts are unsorted with occasional repeats; frequencies are not tied to L, and are unsorted for every third seed"""
+    def custom_plan(N, fs, olap, Lmin=1, **kw):
+        rng = np.random.default_rng(seed)
+        lo = max(1, int(Lmin))
+        hi = max(lo, min(int(N), 96))
+        Ls: List[int] = []
+        for b in rng.integers(lo, hi + 1, size=4).tolist():
+            Ls += [b, min(hi, b + 1), b, max(lo, b - 1), min(hi, b + 2), b]
+        Ls += [lo, hi, int(N), min(hi, lo + 1), lo]
+        nb = int(rng.integers(8, len(Ls) + 1))
+        Ls = [Ls[int(q)] for q in rng.permutation(len(Ls))[:nb]]
+        f = rng.uniform(0.002, 0.498, size=nb) * float(fs)
+        if seed % 3:
+            f = np.sort(f)
+        L = np.array(Ls, dtype=np.int64)
+        D = []
+        for Lj in Ls:
+            K = int(rng.choice([1, 2, 3, 5, 8]))
+            d = rng.integers(0, int(N) - Lj + 1, size=K)
+            if K >= 3 and rng.random() < 0.3:
+                d[1] = d[0]
+            D.append(d.astype(np.int64))
+        r = float(fs) / L
+        Ks = np.array([len(d) for d in D], dtype=np.int64)
+        return {"f": f, "r": r, "b": f / r, "L": L, "K": Ks, "navg": Ks.copy(), "D": D, "O": np.full(nb, float(olap))}
+    custom_plan.__name__ = f"custom_plan_{seed}"
+    return custom_plan
+
+
 # ---------------------------------------------------------------- cases
 def real_kwargs(case: Dict[str, Any]) -> Dict[str, Any]:
     o = dict(case["opts"])
     wk = o.pop("winkind")
     psll = o.pop("psll", None)
+    if isinstance(o["scheduler"], str) and o["scheduler"].startswith("custom:"):
+        o["scheduler"] = custom_sched(int(o["scheduler"].split(":")[1]))
     if wk == "kaiser":
         o["win"], o["psll"] = "kaiser", psll
     elif wk == "default":                    # the constructor's default window (np.kaiser callable)
@@ -126,6 +160,10 @@ def gen_case(rng: np.random.Generator, i: int, edge: bool = False, small: bool =
     o.pop("psll", None)
     if edge:
         o.update(Jdes=int(rng.integers(2, 8)), bmin=1.0, Lmin=int(rng.choice([1, 2])), Kdes=int(rng.choice([1, 2])))
+    if i % 4 == 3:                         # a user scheduler with repeated / neighbouring / non-monotone segment lengths
+        o["scheduler"] = f"custom:{int(rng.integers(0, 2 ** 31))}"
+    elif i % 8 == 1 and not edge:          # dense built-in plans (segment lengths step by 1 or 2)
+        o["Jdes"] = int(rng.integers(60, 200))
     wk = WINKINDS[i % len(WINKINDS)]
     o["winkind"] = wk
     if wk in ("kaiser", "default", "spkaiser"):
@@ -154,7 +192,7 @@ def brief(case) -> str:
 
 def sig(case, sub: str, **kw) -> Dict[str, Any]:
     o = case["opts"]
-    s = {"subclaim": sub, "scheduler": o["scheduler"], "order": o["order"], "win": o["winkind"], "backend": o["backend"],
+    s = {"subclaim": sub, "scheduler": str(o["scheduler"]).split(":")[0], "order": o["order"], "win": o["winkind"], "backend": o["backend"],
          "cross": case["data"].ndim == 2}
     s.update(kw)
     return s
@@ -222,7 +260,7 @@ def run_full(P: C.Part, case, an=None, via: str = "class", tag: str = "full", re
     bad = ref_mismatches(res, case, bins)
     o = case["opts"]
     rep = nf - len(set(Ls.tolist()))
-    P.hit(f"{tag}:{o['scheduler']}")
+    P.hit(f"{tag}:{str(o['scheduler']).split(':')[0]}")
     P.hit(f"{tag}:order={o['order']}")
     P.hit(f"{tag}:win={o['winkind']}")
     P.hit(f"{tag}:backend={o['backend']}")
@@ -231,7 +269,7 @@ def run_full(P: C.Part, case, an=None, via: str = "class", tag: str = "full", re
     if rep:
         P.hit(f"{tag}:plans-with-repeated-L")
     if nf >= 2 and max(Ks) >= 2:
-        P.nontrivial.add((tag, o["scheduler"], o["order"], o["winkind"], o["backend"], case["data"].ndim, case["data"].shape[-1], nf))
+        P.nontrivial.add((tag, str(o["scheduler"]).split(":")[0], o["order"], o["winkind"], o["backend"], case["data"].ndim, case["data"].shape[-1], nf))
     if bad:
         j, k, ob, ex, tol = bad[0]
         P.violations.append(C.Violation(
@@ -351,7 +389,7 @@ def run_band(P: C.Part, case, full, band: Tuple[float, float], tag: str = "band"
     P.hit(f"{tag}:{'empty' if idx.size == 0 else 'all' if idx.size == nf else 'proper'}")
     P.hit(f"{tag}:edges-on-plan-frequencies={onedge}")
     if idx.size < nf:
-        P.nontrivial.add((tag, case["opts"]["scheduler"], nf, int(idx.size), int(idx[0]) if idx.size else -1, onedge, case["data"].shape[-1]))
+        P.nontrivial.add((tag, str(case["opts"]["scheduler"]).split(":")[0], nf, int(idx.size), int(idx[0]) if idx.size else -1, onedge, case["data"].shape[-1]))
     try:
         sub = make_analyzer(case, band=(fmin, fmax)).compute()
     except ValueError as ex:
